@@ -1,8 +1,100 @@
 import DendroModel.Basic.Tree
-open DendroModel
+import DendroModel.Model.C18
+open DendroModel DendroModel.C18
+
+/-! Line protocol of `drv_c18` (all numbers are integers in the harness's time / rate units):
+  bd   <N|-> <maxtime|-> <b> <d> <n0> <draws…>      birth_death_tree
+  fbd  <N|-> <maxtime|-> <b> <d> <n0> <draws…>      fast_birth_death_tree
+  pb   <n> <draws…>                                 uniform_pure_birth_tree
+  king <n> <pop> <draws…>                           pure_kingman_tree
+  cont <fix|ru<k>> <m> <par×m> <len×m> <pop×m> <ngenes×m> <draws…>   contained_coalescent_tree / constrained_kingman_tree
+draws: w<int> u<num>/<den> g<int> p<i,j,…> s<i>,<j> c<i> i<int>.  Answer: `ok <tree>` or `err <kind>`. -/
+
+def natsCsv (s : String) : Option (List Nat) :=
+  if s.isEmpty then some [] else (s.splitOn ",").mapM String.toNat?
+
+def parseDraw (s : String) : Option Draw :=
+  let body := (s.drop 1).toString
+  match s.front with
+  | 'w' => body.toInt?.map Draw.w
+  | 'g' => body.toInt?.map Draw.g
+  | 'i' => body.toInt?.map Draw.rint
+  | 'c' => body.toNat?.map Draw.choice
+  | 'p' => (natsCsv body).map Draw.perm
+  | 's' => match natsCsv body with
+    | some [i, j] => some (Draw.samp i j)
+    | _ => none
+  | 'u' => match body.splitOn "/" with
+    | [a, b] => match a.toInt?, b.toInt? with
+      | some a, some b => some (Draw.u a b)
+      | _, _ => none
+    | _ => none
+  | _ => none
+
+def optNat (s : String) : Option (Option Nat) := if s == "-" then some none else s.toNat?.map some
+def optInt (s : String) : Option (Option Int) := if s == "-" || s == "N" then some none else s.toInt?.map some
+
+def errName : Err → String
+  | .draws => "draws" | .kind => "kind" | .fuel => "fuel" | .state => "state" | .arg => "arg"
+
+def showSim : Except Err SimResult → String
+  | .error e => "err " ++ errName e
+  | .ok r => "ok " ++ (renderBT r.taxa r.tree 0).1
+
+def showGT (nm : Nat × Nat → String) : Except Err GT → String
+  | .error e => "err " ++ errName e
+  | .ok t => "ok " ++ t.render nm
+
+def buildST (fuel : Nat) (par : Array Int) (lens : Array (Option Int)) (pops : Array Nat) (ng : Array Nat) (i : Nat) : ST :=
+  match fuel with
+  | 0 => .node i none 1 [] []
+  | f + 1 =>
+    let kids := (List.range par.size).filter (fun j => par[j]! == (i : Int))
+    .node i (lens[i]!) (pops[i]!) ((List.range (ng[i]!)).map (fun k => (i, k + 1)))
+      (kids.map (buildST f par lens pops ng))
+
+def runBD (fast : Bool) (n mt b d n0 : String) (rest : List String) : String :=
+  match optNat n, optInt mt, b.toInt?, d.toInt?, n0.toNat?, rest.mapM parseDraw with
+  | some n, some mt, some b, some d, some n0, some ds =>
+    let P : BDParams := { nTips := n, maxTime := mt, b := b, d := d }
+    if fast then showSim (fbdRun P n0 ds) else showSim (bdRun P n0 ds)
+  | _, _, _, _, _, _ => "bad-op"
+
+def runCont (mode m : String) (toks : List String) : String :=
+  match m.toNat? with
+  | none => "bad-op"
+  | some m =>
+    if toks.length < 4 * m then "bad-op" else
+    match (toks.take m).mapM String.toInt?, ((toks.drop m).take m).mapM optInt,
+          ((toks.drop (2 * m)).take m).mapM String.toNat?, ((toks.drop (3 * m)).take m).mapM String.toNat?,
+          (toks.drop (4 * m)).mapM parseDraw with
+    | some par, some lens, some pops, some ng, some ds =>
+      match (List.range m).find? (fun j => par.toArray[j]! == -1) with
+      | none => "bad-op"
+      | some root =>
+        let st := buildST (m + 1) par.toArray lens.toArray pops.toArray ng.toArray root
+        let nm := fun (p : Nat × Nat) => toString p.1 ++ "." ++ toString p.2
+        if mode == "fix" then showGT nm (contained st ds)
+        else if mode.startsWith "ru" then
+          match (mode.drop 2).toString.toNat? with
+          | some k => showGT nm (containedRU st k ds)
+          | none => "bad-op"
+        else "bad-op"
+    | _, _, _, _, _ => "bad-op"
 
 def handle (ws : List String) : String :=
   match ws with
+  | "bd" :: n :: mt :: b :: d :: n0 :: rest => runBD false n mt b d n0 rest
+  | "fbd" :: n :: mt :: b :: d :: n0 :: rest => runBD true n mt b d n0 rest
+  | "pb" :: n :: rest =>
+    match n.toNat?, rest.mapM parseDraw with
+    | some n, some ds => showSim (pbRun n ds)
+    | _, _ => "bad-op"
+  | "king" :: n :: pop :: rest =>
+    match n.toNat?, pop.toNat?, rest.mapM parseDraw with
+    | some n, some pop, some ds => showGT (fun p => toString p.1) (kingman n pop ds)
+    | _, _, _ => "bad-op"
+  | "cont" :: mode :: m :: toks => runCont mode m toks
   | _ => "bad-op"
 
 def main : IO Unit := do driverLoop (← IO.getStdin) handle
